@@ -185,7 +185,27 @@ impl Case {
             OpK::DivNum => {
                 let d = val_text(&self.divisor, &divisor_ty(&self.divisor), true);
                 let d = if d.starts_with('-') { format!("({})", d) } else { d };
-                format!("{} / {}", self.operand(op.i), d)
+                // printed as the difference to the same quotient computed element by element with scalar divisions: number
+                // formatting (%.14g) would hide a last-bit difference, the difference to the exact value does not
+                fn rebuilt(base: &str, v: &Val, d: &str) -> String {
+                    match v {
+                        Val::Tuple(vs) => {
+                            let parts: Vec<String> = vs.iter().enumerate().map(|(k, x)| rebuilt(&format!("{}[{}]", base, k), x, d)).collect();
+                            if parts.len() == 1 {
+                                format!("({},)", parts[0])
+                            } else {
+                                format!("({})", parts.join(", "))
+                            }
+                        }
+                        _ => format!("{} / {}", base, d),
+                    }
+                }
+                let a = self.operand(op.i);
+                if matches!(self.vals[op.i], Val::Tuple(ref vs) if !vs.is_empty()) {
+                    format!("{} / {} - {}", a, d, rebuilt(&a, &self.vals[op.i], &d))
+                } else {
+                    format!("{} / {}", a, d)
+                }
             }
             k => format!("{} {} {}", self.operand(op.i), k.sym(), self.operand(op.j)),
         }
@@ -280,7 +300,15 @@ fn expect(op: &Op, ms: &[M], divisor: &M) -> Option<String> {
         OpK::Gt => M::B(m_cmp(a, b)? == Ordering::Greater),
         OpK::Ge => M::B(m_cmp(a, b)? != Ordering::Less),
         OpK::Add | OpK::Sub | OpK::Mul | OpK::Div => m_arith(op.k, a, b)?,
-        OpK::DivNum => m_arith(OpK::Div, a, divisor)?,
+        OpK::DivNum => {
+            let q = m_arith(OpK::Div, a, divisor)?;
+            // rendered as `a / d - (a[0] / d, ..)` for non-empty tuples: the exact difference, all zeros
+            if matches!(a, M::T(ref xs) if !xs.is_empty()) {
+                m_arith(OpK::Sub, &q, &q)?
+            } else {
+                q
+            }
+        }
         OpK::Neg => m_neg(a)?,
     };
     show(&r)
